@@ -15,6 +15,14 @@ Two ties between Pygom/Integrate.lean (theorems in Pygom/Props/C02.lean) and the
      independent reference: scipy.integrate.solve_ivp DOP853 rtol=atol=1e-12 (Radau cross-check on a subset)
      on the right-hand side built from the Lean driver's `assemble` ODE expressions evaluated in float.
      A failure there is a violation of the property itself.
+(i') exact, sessions ("fakesession" cases).  The Lean model of ONE call is a pure function of (cfg, x0, t0, grid, flow);
+     `Inst`/`SOp`/`runOps` (Integrate.lean) add the instance state the entry points carry between calls (`_x0`, `_t0`,
+     `_odeTime`, `_odeSolution`) and `session_is_pure` / `earlier_results_kept` / `solve_reads_current` (Props/C02.lean)
+     prove that it never matters.  A random list of assignments (initial_state / initial_time / initial_values) and solves
+     (integrate, solve_determ, integrate2; few grids, so the same grid comes back after a change) is applied to one fresh
+     real model against the fake integrator and to the driver's `runOps`; all returned arrays are read at the end.
+(iii) DIRECT ORACLE, sessions ("session" cases): histories on one instance, sibling instances, input forms - see the
+     comment above `ENTRY_CONFIGS`.
 """
 import json
 import math
@@ -46,7 +54,30 @@ RULE = ("fake-integrator cases: random entry point (integrateFuncJac, integrate2
         "2-8 points, list or ndarray) and catalogue models of pygom.common_models (SIS, SIR, SEIR, Lotka_Volterra, SIR_norm, "
         "FitzHugh, vanDerPol, Lorenz and the stiff Robertson system (odeint / lsoda / bdf entry points only); equations re-written by hand from their docstrings) x 43 entry-point configurations "
         "(integrate x2, solve_determ x2, integrate2 x 6 methods x full_output, integrateFuncJac x 6 methods x full_output x "
-        "includeOrigin, scalar t x3); non-trivial when the reference solution moves by >1e-3 and every configuration was judged")
+        "includeOrigin, scalar t x3); non-trivial when the reference solution moves by >1e-3 and every configuration was judged. "
+        "Fake sessions: 4-14 operations on one fresh model (initial_state / initial_time / initial_values assignments, integrate, "
+        "solve_determ, integrate2 with random method and full_output; grids drawn from a pool of 1-3 lists and a scalar so that a "
+        "grid is asked again after the instance changed; empty / not-a-time / None arguments) against the driver's runOps; "
+        "non-trivial when at least two solves returned rows and everything agrees. "
+        "Sessions (direct oracle only; every solve judged against the reference for its own inputs, returned arrays kept and "
+        "compared after every later call with the copy taken on return, every list/array/dict handed in compared with the copy "
+        "taken before, repeated solves with equal values compared bit for bit): the 40 entry-point configurations (integrate x2, "
+        "solve_determ x2, integrate2 x12, integrateFuncJac x24) are dealt round-robin, 5 per session. HISTORY (one instance, random "
+        "model or pygom.common_models object): solve on (A, G0); then per dimension, in random order, change one of {t0, x0, "
+        "parameters (redrawn or the same values bound to other names), t0 and x0, grid: same length other values / same length and "
+        "end points other interior / superset / subset / last time as a scalar, t0 and grid together, container, method, "
+        "full_output, includeOrigin, entry point}, solve, restore, solve; only what differs from what the instance was last given "
+        "is re-assigned (initial_time / initial_state or initial_values; parameters as dict / partial dict / (name, value) tuples / "
+        "list or ndarray in declaration order). SIBLINGS: live instances with the same names - parameter list (40%: and state list) "
+        "declared in another order with other values (half of the time the same values on other names), a re-defined derived "
+        "parameter or an extra term, a twin re-built and a deepcopy taken in mid-history - solved interleaved, the first one "
+        "moved to the second one's parameter values and back. FORMS (integer-valued x0, t0 and times, T = 1 or 1/2): grid as "
+        "list / tuple / ndarray / list of np.float64 / int list / int64 / int32 / mixed int-float / Python, numpy, integer scalar, "
+        "x0 as ndarray / list / tuple / int64 / int list / int tuple / mixed, t0 as float / np.float64 / int / np.int64, all-integer "
+        "combinations, integer x0 and t0 with a fractional grid, a grid whose first time is t0 (IntegrationError of the "
+        "scipy.integrate.ode based entry points on a zero-length step is tagged, not judged). A session is non-trivial when every "
+        "reference moved by >1e-3, at least one solve was judged and (history, siblings) at least one changed configuration has a "
+        "reference differing by >1e-3 from the first one's")
 ASSUMPTIONS = ["PARTIAL: scipy's integrators (odeint; ode: lsoda/vode/dopri5/dop853) approximate the flow within tolerance - a "
                "hypothesis of the Lean theorems (Laws S: identity + semigroup of an ideal flow), validated on every run: "
                "|row - ref| <= 1e-6 (1+|ref|) against solve_ivp DOP853 rtol=atol=1e-12 (Radau cross-check <= 1e-8 on a subset)",
@@ -58,7 +89,12 @@ ASSUMPTIONS = ["PARTIAL: scipy's integrators (odeint; ode: lsoda/vode/dopri5/dop
                "counted in the input distribution, never judged",
                "scipy's set_initial_value copies its argument and an aliased r.y is overwritten by the next integrate (measured "
                "on the real scipy before every run, recorded as aliased_measured_on_real_scipy)",
-               "np.array(solution) reads list cells only at the end of integrateFuncJac"]
+               "np.array(solution) reads list cells only at the end of integrateFuncJac",
+               "sessions: the same acceptance as the runtime cases, per (instance definition, configuration) on the union of the "
+               "times asked of it; fixed-horizon (integer-time) instances are attempted only when |J(x0)| x horizon <= 4; input "
+               "spellings the unchanged pygom rejects (range objects, 0-d arrays as t0, pickling a model) are not probed; "
+               "bit-for-bit reproducibility of repeated solves is demanded of one instance only (a re-built twin may order sums "
+               "differently) and its failure is a mismatch with the pure model, a violation only when off the reference"]
 TRUSTED = ["harness fake integrator (exact dyadic arithmetic in float64)", "harness float evaluator of the Lean ODE expressions",
            "scipy.integrate.solve_ivp DOP853/Radau as reference", "Lean driver JSON codec and `assemble` (tied to pygom by C01)",
            "hand-written catalogue equations (docstrings of pygom.common_models)"]
@@ -1358,7 +1394,17 @@ def run_session(case):
             used.setdefault((root(op["inst"]), op["cfg"]), set()).add(op["grid"])
     tbase = Fraction(case["tbase"])
     if "Tfixed" in case:
+        # integer-valued times: the horizon cannot follow the model, so instances whose Lipschitz bound at x0 times the
+        # horizon exceeds 4 are not attempted (the reference would crawl towards a finite-time blow-up)
         T = Fraction(case["Tfixed"])
+        span = float(T) * max(float(Fraction(f)) for g in case["grids"].values() for f in g)
+        for (i, name) in used:
+            try:
+                L = float(np.linalg.norm(fd_jac(rhs(i, name), 0.0, np.array(x0_of(i, name))), 2))
+            except (ZeroDivisionError, OverflowError, ValueError):
+                return done(extra=["rejected:rhs-undefined-at-x0"])
+            if not np.isfinite(L) or L * span > 4.0:
+                return done(extra=["rejected:fixed-horizon-too-long"])
     else:
         Ts = []
         for (i, name) in used:
